@@ -71,6 +71,30 @@ PROPS = {
     "C13": dict(kind="expr", quick=600, thorough=20000),
 }
 
+# which regenerated-table obligations (coq/Gen/Obligations<X>.v) tie the code each property is
+# anchored in; a property's check builds its own theorem file and these, nothing else
+OBLIGATIONS = {
+    "C01": ["Wiring", "Eval", "Gate", "Finished", "Events"], "C02": ["Wiring", "Eval"],
+    "C03": ["Wiring", "Eval"], "C04": ["Wiring", "Eval", "Decide"], "C05": ["Wiring", "Eval", "Decide"],
+    "C06": ["Wiring", "Eval", "ParLoop"], "C07": ["Wiring", "Eval", "Started", "Finished"],
+    "C08": ["Gate", "Events"], "C13": ["Ops", "Front"], "C14": ["Started", "Wiring"],
+    "C15": ["Subst", "Started", "ParLoop"], "C17": ["Finished", "Started"], "C20": ["Finished", "Started"],
+    "C18": ["Gate", "Wiring"], "C12": ["Front"],
+}
+RUNTIME = {"run": ["NetRun.vo", "Monitors.vo"], "config": ["NetRun.vo", "Monitors.vo"], "expr": ["Expr.vo"]}
+
+
+def build_targets(pid):
+    """(runtime targets, theorem + obligation targets) for common.build; (None, None) = everything"""
+    cfg = PROPS.get(pid, {})
+    if "targets" in cfg:
+        return cfg.get("runtime"), cfg["targets"]
+    if pid not in OBLIGATIONS or cfg.get("kind") not in RUNTIME:
+        return None, None
+    return (RUNTIME[cfg["kind"]],
+            ["Properties/%s.vo" % pid] + ["Gen/Obligations%s.vo" % o for o in OBLIGATIONS[pid]])
+
+
 # plug-in property tables: every harness/props_<name>.py exposes PROPS (and optionally RUN_PROFILES)
 import os as _os
 for _f in sorted(_os.listdir(_os.path.dirname(_os.path.abspath(__file__)))):
